@@ -2,6 +2,7 @@
   Props.C08 — "Patch-chain lookup returns the highest-priority version whatever the history".
 -/
 import WowVerif.Lemmas.C08
+import WowVerif.Lemmas.C08Read
 namespace Wv.C08
 open Wv Wv.Chain
 
@@ -45,6 +46,47 @@ theorem rle_output_bounded (c : Bytes) (size : Nat) (skip : Bool) (out : Bytes)
 /-- … and so does a whole BSD0 patch: the patched file is never longer than 128 bytes per byte of patch data -/
 theorem bsd0_output_bounded (p : Patch) (base out : Bytes) (h : applyBsd0 p base = some out) :
     out.length ≤ 128 * p.data.length := Chain.bsd0_output_bounded p base out h
+
+/-! ### the file map, the listing and reads through patch entries (Model.C08Read) -/
+
+/-- FILE MAP = FIRST MATCH: the hash map that rebuild_file_map fills archive by archive (`or_insert`) answers, for every
+    key and every list of listings, with the first archive in chain order that lists the key — the map IS `lookup` -/
+theorem filemap_is_first_match (lists : List (List Nat)) (k : Nat) :
+    mapGet (rebuildMap lists) k = lists.findIdx? (·.contains k) := Chain.rebuildMap_get lists k
+
+/-- LISTING = UNION of the archives' names, each once, ascending -/
+theorem listing_is_union (lists : List (List Nat)) :
+    (∀ n, n ∈ listing lists ↔ ∃ l ∈ lists, n ∈ l) ∧ (listing lists).Nodup ∧ (listing lists).Pairwise (· ≤ ·) :=
+  ⟨Chain.listing_mem lists, Chain.listing_nodup lists, Chain.listing_sorted lists⟩
+
+/-- READ THROUGH A PATCH ENTRY: whatever `read_patched_file` returns is either the base itself (no archive holds a patch
+    version of the name) or matches the digest and size declared by the HIGHEST-PRIORITY patch version; every archive's
+    patch version was read and parsed (none skipped), for any digest function -/
+theorem patched_read_verified (md5 : Bytes → Bytes) (vers : List Ver) (out : Bytes)
+    (h : readPatched md5 vers = .ok out) :
+    ∃ ps b, patchesOf vers = some ps ∧ baseOf vers = some b ∧
+      (match ps with
+       | [] => out = b
+       | p :: _ => md5 out = p.md5After ∧ out.length = p.sizeAfter) ∧
+      ∀ v ∈ vers, ∀ p, v = .patch p → ∃ q, p = some q ∧ q ∈ ps := by
+  obtain ⟨ps, b, h1, h2, h3⟩ := Chain.readPatched_verified md5 vers out h
+  exact ⟨ps, b, h1, h2, h3, Chain.patchesOf_mem vers ps h1⟩
+
+/-- a patch version that cannot be read or parsed makes the read an error — never the base, never lower patches only -/
+theorem unreadable_patch_is_error (md5 : Bytes → Bytes) (vers : List Ver) (h : Ver.patch none ∈ vers) :
+    ∃ e, readPatched md5 vers = .error e := by
+  cases hr : readPatched md5 vers with
+  | error e => exact ⟨e, rfl⟩
+  | ok out =>
+    obtain ⟨ps, _, h1, _, _, hall⟩ := patched_read_verified md5 vers out hr
+    obtain ⟨q, hq, _⟩ := hall _ h none rfl
+    cases hq
+
+/-! non-vacuity: three archives; a base under a COPY patch (identity digest function, 2-byte file) -/
+example : mapGet (rebuildMap [[1, 2], [2, 3], [3, 4]]) 3 = some 1 := by decide
+example : listGo [] [[3, 1], [2, 3], [4, 1]].flatten = [3, 1, 2, 4] := by decide
+example : (match readPatched (fun b => b) [.patch (some ⟨0, 2, 2, [1, 2], [7, 8], true, [7, 8]⟩), .absent, .plain (some [1, 2])] with
+    | .ok o => o == [7, 8] | .error _ => false) = true := by decide
 
 /-! non-vacuity: a history with ties and a re-prioritisation; the winner of a lookup -/
 example : ((run [.add 0 0, .add 1 5, .add 2 5, .setPriority 1 5, .add 3 (-1)]).entries.map (·.id)) = [2, 1, 0, 3] := by decide
